@@ -202,7 +202,8 @@ Proof. intros A [|] x; reflexivity. Qed.
 Lemma step_mkgroup_eq : forall c w pcs n, names_ok_l (pcs ++ [n]) ->
   step_body c w (MkGroup (render (pcs ++ [n]))) =
   if negb (parent_registered w (render pcs)) then (w, Err ENoParent)
-  else finish_create c w (pre_of c w (SG [])) (render (pcs ++ [n])) (render pcs) n true.
+  else match precheck c w (render pcs) n with Some e => (w, Err e) | None =>
+       finish_create c w (pre_of c w (SG [])) (render (pcs ++ [n])) (render pcs) n true end.
 Proof.
   intros c w pcs n H. cbn [step_body]. unfold create_group.
   rewrite validate_group_render' by (assumption || apply snoc_nonempty). cbn [negb]. cbv zeta.
@@ -211,10 +212,12 @@ Qed.
 
 Lemma step_mkdataset_eq : forall c w pcs n, names_ok_l (pcs ++ [n]) ->
   step_body c w (MkDataset (render (pcs ++ [n]))) =
-  finish_create c w (pre_of c w SD) (render (pcs ++ [n])) (render pcs) n false.
+  match precheck c w (render pcs) n with Some e => (w, Err e) | None =>
+  finish_create c w (pre_of c w SD) (render (pcs ++ [n])) (render pcs) n false end.
 Proof.
   intros c w pcs n H. cbn [step_body]. unfold create_dataset.
   rewrite validate_dataset_render' by apply snoc_nonempty. rewrite parse_path_render by assumption. cbn [negb].
+  destruct (precheck c w (render pcs) n); [reflexivity|].
   unfold finish_create, pre_of, with_obj, fresh_obj. cbn [skind].
   destruct (link_to_parent c _ (render pcs) n (clock w)) as [w4 [|e]]; reflexivity.
 Qed.
@@ -224,13 +227,15 @@ Lemma step_softlink_eq : forall c w pcs n q, names_ok_l (pcs ++ [n]) ->
   if negb (validate_soft_target q) then (w, Err EInvalidPath) else
   if negb (parent_registered w (render pcs)) then (w, Err ENoParent) else
   if soft_max c <? blen n + blen q then (w, Err ETooLong) else
-  finish_create c w (pre_of c w (SS q)) (render (pcs ++ [n])) (render pcs) n false.
+  match precheck c w (render pcs) n with Some e => (w, Err e) | None =>
+  finish_create c w (pre_of c w (SS q)) (render (pcs ++ [n])) (render pcs) n false end.
 Proof.
   intros c w pcs n q H. cbn [step_body]. unfold create_soft_link.
   rewrite validate_link_render' by (assumption || apply snoc_nonempty). cbn [negb].
   destruct (negb (validate_soft_target q)); [reflexivity|]. rewrite parse_path_render by assumption.
   destruct (negb (parent_registered w (render pcs))); [reflexivity|].
   destruct (soft_max c <? blen n + blen q); [reflexivity|].
+  destruct (precheck c w (render pcs) n); [reflexivity|].
   unfold finish_create, pre_of, with_obj, fresh_obj. cbn [skind].
   destruct (link_to_parent c _ (render pcs) n (clock w)) as [w4 [|e]]; reflexivity.
 Qed.
@@ -242,6 +247,47 @@ Proof.
   destruct (strict_names c && negb (heap_name_ok nm)); reflexivity.
 Qed.
 
+Lemma noparent_slink_err : forall c w t pcs n child, Rep c w t -> SInv t -> names_ok_l (pcs ++ [n]) ->
+  parent_group w (render pcs) = None -> exists e, s_link c (s_nodes t) (pcs ++ [n]) child = (None, Err e).
+Proof.
+  intros c w t pcs n child R I Hok P. destruct (names_ok_snoc _ _ Hok) as [Hpcs Hn].
+  unfold s_link. rewrite unsnoc_snoc. pose proof (parent_agree c w t pcs R I Hpcs) as PA.
+  destruct (sresolve (s_nodes t) 0 pcs) as [g0|]; [|eauto].
+  destruct (alookup g0 (s_nodes t)) as [[ch| |]|]; eauto. congruence.
+Qed.
+
+Lemma s_link_child_class : forall c T cs a b0, is_ok (snd (s_link c T cs a)) = is_ok (snd (s_link c T cs b0)).
+Proof.
+  intros c T cs a b0. unfold s_link. destruct (unsnoc cs) as [[pcs n]|]; [|reflexivity].
+  destruct (sresolve T 0 pcs) as [g|]; [|reflexivity]. destruct (alookup g T) as [[ch| |]|]; try reflexivity.
+  destruct (clookup n ch); [reflexivity|]. destruct (_ <? _); [reflexivity|]. destruct (_ <=? _); reflexivity.
+Qed.
+
+(* checkLinkable refuses: so does the specification's insertion, whatever is inserted *)
+Lemma precheck_some_slink : forall c w t pcs n e child, Rep c w t -> SInv t -> names_ok_l (pcs ++ [n]) ->
+  precheck c w (render pcs) n = Some e -> is_ok (snd (s_link c (s_nodes t) (pcs ++ [n]) child)) = false.
+Proof.
+  intros c w t pcs n e child R I Hok PC. destruct (names_ok_snoc _ _ Hok) as [Hpcs Hn].
+  unfold precheck in PC. destruct (check_first c); [|discriminate].
+  destruct (parent_group w (render pcs)) as [g|] eqn:PG.
+  2:{ destruct (noparent_slink_err c w t pcs n child R I Hok PG) as (e' & E). rewrite E. reflexivity. }
+  pose proof (parent_agree c w t pcs R I Hpcs) as PA.
+  destruct (sresolve (s_nodes t) 0 pcs) as [g0|] eqn:Sr; [|congruence].
+  destruct (alookup g0 (s_nodes t)) as [[ch| |]|] eqn:L; try congruence.
+  destruct (link_agree c w t w pcs n 0 g0 ch R I eq_refl (fun k _ => conj eq_refl eq_refl) Hpcs Hn Sr L)
+    as [(e1 & e2 & E1 & E2)|(seg' & ents' & E1 & E2 & _)].
+  - rewrite (s_link_child_class c _ _ child 0), E1. reflexivity.
+  - rewrite E2 in PC. discriminate.
+Qed.
+
+Lemma precheck_some_create : forall c w t pcs n e nd, Rep c w t -> SInv t -> names_ok_l (pcs ++ [n]) ->
+  precheck c w (render pcs) n = Some e -> is_ok (snd (s_create c t (render (pcs ++ [n])) nd)) = false.
+Proof.
+  intros c w t pcs n e nd R I Hok PC. rewrite s_create_eq by assumption.
+  pose proof (precheck_some_slink c w t pcs n e (s_clock t) R I Hok PC) as X.
+  destruct (s_link c (s_nodes t) (pcs ++ [n]) (s_clock t)) as [[T'|] r]; exact X.
+Qed.
+
 Lemma sim_mkgroup : forall c w t p, Rep c w t -> SInv t -> path_ok p = true -> SimGoal c w t (MkGroup p).
 Proof.
   intros c w t p R I H. destruct (path_ok_snoc p H) as (pcs & n & Sp & -> & Hok).
@@ -249,7 +295,9 @@ Proof.
   { right. unfold op_link_name. cbn [op_path_eff]. rewrite ?trim_render by assumption. rewrite ?if_same. rewrite link_name_render by assumption. apply name_ok_hname. apply names_ok_snoc in Hok. tauto. }
   eapply sim_from_body; try eassumption; [apply step_mkgroup_eq; assumption|]. cbn [spec_step].
   rewrite parent_registered_eq. destruct (parent_group w (render pcs)) as [g|] eqn:PG; cbn [negb].
-  - apply (finish_sim c w t (SG []) pcs n R I Hok). reflexivity.
+  - destruct (precheck c w (render pcs) n) as [e|] eqn:PC.
+    + left. split; [reflexivity | eapply precheck_some_create; eassumption].
+    + apply (finish_sim c w t (SG []) pcs n R I Hok). reflexivity.
   - left. split; [reflexivity | eapply noparent_spec_err; eassumption].
 Qed.
 
@@ -259,7 +307,9 @@ Proof.
   assert (Hnm : name_cond c (op_link_name c (MkDataset (render (pcs ++ [n]))))).
   { right. unfold op_link_name. cbn [op_path_eff]. rewrite ?trim_render by assumption. rewrite ?if_same. rewrite link_name_render by assumption. apply name_ok_hname. apply names_ok_snoc in Hok. tauto. }
   eapply sim_from_body; try eassumption; [apply step_mkdataset_eq; assumption|]. cbn [spec_step].
-  apply (finish_sim c w t SD pcs n R I Hok). exact Logic.I.
+  destruct (precheck c w (render pcs) n) as [e|] eqn:PC.
+  - left. split; [reflexivity | eapply precheck_some_create; eassumption].
+  - apply (finish_sim c w t SD pcs n R I Hok). exact Logic.I.
 Qed.
 
 Lemma sim_softlink : forall c w t p q, Rep c w t -> SInv t -> path_ok p = true -> SimGoal c w t (SoftLink p q).
@@ -272,20 +322,14 @@ Proof.
   rewrite Sp, unsnoc_snoc.
   rewrite parent_registered_eq. destruct (parent_group w (render pcs)) as [g|] eqn:PG; cbn [negb].
   - destruct (soft_max c <? blen n + blen q); [left; split; reflexivity|].
-    apply (finish_sim c w t (SS q) pcs n R I Hok). exact Logic.I.
+    destruct (precheck c w (render pcs) n) as [e|] eqn:PC.
+    + left. split; [reflexivity | eapply precheck_some_create; eassumption].
+    + apply (finish_sim c w t (SS q) pcs n R I Hok). exact Logic.I.
   - left. split; [reflexivity|]. destruct (soft_max c <? blen n + blen q); [reflexivity|].
     eapply noparent_spec_err; eassumption.
 Qed.
 
 (* ---------------------------------------------------------------- hard links to datasets *)
-Lemma noparent_slink_err : forall c w t pcs n child, Rep c w t -> SInv t -> names_ok_l (pcs ++ [n]) ->
-  parent_group w (render pcs) = None -> exists e, s_link c (s_nodes t) (pcs ++ [n]) child = (None, Err e).
-Proof.
-  intros c w t pcs n child R I Hok P. destruct (names_ok_snoc _ _ Hok) as [Hpcs Hn].
-  unfold s_link. rewrite unsnoc_snoc. pose proof (parent_agree c w t pcs R I Hpcs) as PA.
-  destruct (sresolve (s_nodes t) 0 pcs) as [g0|]; [|eauto].
-  destruct (alookup g0 (s_nodes t)) as [[ch| |]|]; eauto. congruence.
-Qed.
 
 Lemma sim_hardlink : forall c w t p q, Rep c w t -> SInv t ->
   path_ok p = true -> path_ok q = true -> target_is_data t q = true -> SimGoal c w t (HardLink p q).
@@ -307,7 +351,11 @@ Proof.
   destruct (r_kind _ _ _ R tid SD Lt) as (o & Ho & Hkd). cbn [skind] in Hkd.
   destruct (parent_group w (render pcs)) as [g|] eqn:PG; cbn [negb].
   2:{ left. split; [reflexivity|]. destruct (noparent_slink_err c w t pcs n tid R I Hok PG) as (e & E). rewrite E. reflexivity. }
-  rewrite Ho. set (o1 := write_refcount c o (wrap32 (refcount o + 1))). set (w1 := set_objects w (aset tid o1 (objects w))).
+  rewrite Ho.
+  destruct (precheck c w (render pcs) n) as [e0|] eqn:PC.
+  { left. split; [reflexivity|]. pose proof (precheck_some_slink c w t pcs n e0 tid R I Hok PC) as X.
+    destruct (s_link c (s_nodes t) (pcs ++ [n]) tid) as [[T'|] r]; exact X. }
+  set (o1 := write_refcount c o (wrap32 (refcount o + 1))). set (w1 := set_objects w (aset tid o1 (objects w))).
   pose proof (parent_agree c w t pcs R I Hpcs) as PA.
   destruct (sresolve (s_nodes t) 0 pcs) as [g0|] eqn:Sr; [|congruence].
   destruct (alookup g0 (s_nodes t)) as [[ch| |]|] eqn:L; try congruence.
